@@ -479,6 +479,12 @@ func cliAlphabet() []SSym {
 	bare := ses("failed", "A")
 	bare.NoReason = true
 	a = append(a, bare)
+	// terminal answers that quote transport options (the ones the client asked for, typically)
+	for _, st := range []string{"failed", "finished"} {
+		q := ses(st, "A")
+		q.Enc, q.Comp = "tls", "none"
+		a = append(a, q)
+	}
 	a = append(a, SSym{Kind: "message"}, SSym{Kind: "request", ID: "A"}, SSym{Kind: "notification"}, SSym{Kind: "garbage"})
 	return a
 }
